@@ -23,10 +23,10 @@ claim("C20", "translation_validation",
       "Complete structural comparison of the two shipped artefacts: every rule, every expression node (kind, order, labels, references, literals, character classes, predicates, repetition) and every action code block (as Go ASTs modulo formatting) of grammar.peg against the `g` table and the on*/callon* functions of grammar.go. The property is a relation between two source files, so static comparison decides it entirely; in addition the table is immutable after package initialisation, and the engine rules of C15 (combinator contracts, entry at the first rule, recover discipline, no budget of the engine's own making) are imported because the statement concludes to the parser's behaviour.",
       "§4 C20", "static translation validation (own PEG front-end vs type-checked table literal; AST comparison of action bodies)")
 claim("C15", "other",
-      "Structural necessary conditions: table == grammar (C20), the table is a well-formed PEG (defined/unique/reachable rules, no left recursion, no nullable repetition, labels in scope), entry alternatives anchored at EOF and entry/UTF-8/recover options unused, every table node type dispatched, every action type assertion satisfied by inferred result types, keywords separated from identifiers. The hand-written engine that interprets the table is held to PEG contracts decided on the paths of each combinator (sequence, ordered choice, and/not predicates, repetitions, option, label, action, literal / class / any matchers, read/restore/sliceFrom, the value stack), to its error-recording and recover discipline and to its budget census; value actions fail only with a decoding library's own error; non-string literal actions return the matched text. Does NOT decide accept/reject against an independent recogniser, nor WHICH language the grammar defines (a character class narrowed consistently in both artefacts is out of reach).",
+      "Structural necessary conditions: table == grammar (C20), the table is a well-formed PEG (defined/unique/reachable rules, no left recursion, no nullable repetition, labels in scope), entry alternatives anchored at EOF, entry/UTF-8/recover options unused and the empty entry-point name mapped to the first rule on a test of that name, every table node type dispatched, every action type assertion satisfied by inferred result types, keywords separated from identifiers. The hand-written engine that interprets the table is held to PEG contracts decided on the paths of each combinator (sequence, ordered choice, and/not predicates, repetitions, option, label, action, literal / class / any matchers, read/restore/sliceFrom, the value stack), to its error-recording and recover discipline and to its budget census; value actions fail only with a decoding library's own error; non-string literal actions return the matched text. Does NOT decide accept/reject against an independent recogniser, nor WHICH language the grammar defines (a character class narrowed consistently in both artefacts is out of reach).",
       "§4 C15", "grammar well-formedness analyses + result-type inference over the rule table; imports C20's comparison")
 claim("C16", "other",
-      "Decides the grammar facts the statement names: operator exposure per operand position (not > and > or, right grouping, brackets reset), double-negation fold in the not action, string-literal action == strconv.Unquote(whole match), no earlier value alternative can start with a quote (choice shadowing), keyword boundaries, layout rule is whitespace only and optional on the inside of every bracket pair, every alternative of the entry rule runs to the end of input, a quoted literal may be empty. Does NOT decide tree equality over all renderings (no printer exists in the repository).",
+      "Decides the grammar facts the statement names: operator exposure per operand position (not > and > or, right grouping, brackets reset), double-negation fold in the not action, string-literal action == strconv.Unquote(whole match), no earlier value alternative can start with a quote (choice shadowing), keyword boundaries, layout rule is whitespace only and optional on the inside of every bracket pair and beside every punctuation-only literal, every alternative of the entry rule runs to the end of input, a quoted literal may be empty. Does NOT decide tree equality over all renderings (no printer exists in the repository).",
       "§4 C16", "operator-exposure and FIRST/FOLLOW analyses on the rule table + typed-AST checks of three actions")
 
 claim("C03", "other",
@@ -57,10 +57,10 @@ claim("C14", "other",
       "§4 C14", "unordered-iteration census with per-source shape decision (dominance, closure capture analysis, in-loop return classification)")
 
 claim("C02", "other",
-      "For each of the 27 reflect kinds the two sibling tables are extracted and compared with a spec transcribed from the statement: scalars get the comparator/coercion of their group (Int/int64/ParseInt(raw,0,64), Uint/uint64/ParseUint(raw,0,64), Float/float64/ParseFloat(raw,64), float32(Float())/float32/ParseFloat(raw,32), Bool/ParseBool, String/raw text), non-scalars get none and equality against them is an error; each coercion is exactly one strconv call on the unmodified Raw text returning strconv's error unchanged; no integer<->float conversion on either side; a failed coercion makes the matcher return (false, error) (one named ErrSyntax skip for heterogeneous []interface{}); json.Number narrows int64 then float64 before the dispatch; matchers receive Indirect(ValueOf(v)). Does not decide strconv's own arithmetic. Also: the == matcher asks both tables for the kind of the very value it was given; pointer-stripping helpers strip every level.",
+      "For each of the 27 reflect kinds the two sibling tables are extracted and compared with a spec transcribed from the statement: scalars get the comparator/coercion of their group (Int/int64/ParseInt(raw,0,64), Uint/uint64/ParseUint(raw,0,64), Float/float64/ParseFloat(raw,64), float32(Float())/float32/ParseFloat(raw,32), Bool/ParseBool, String/raw text), non-scalars get none and equality against them is an error; each coercion is exactly one strconv call on the unmodified Raw text returning strconv's error unchanged; no integer<->float conversion on either side; a failed coercion makes the matcher return (false, error) (one named ErrSyntax skip for heterogeneous []interface{}); json.Number narrows int64 then float64 before the dispatch; matchers receive Indirect(ValueOf(v)). Does not decide strconv's own arithmetic. Also: the == matcher asks both tables for the kind of the very value it was given; pointer-stripping helpers strip every level; the number rules of the table admit every digit as the first and wherever digits repeat; an error recorded by a literal's action is the error of the parse.",
       "§4 C02", "sibling-table extraction by abstract execution per kind vs spec table; constant-argument/single-call checks of strconv wrappers; conversion census; coercion-error path analysis")
 claim("C11", "other",
-      "Non-interference proof from censuses: budget transported unmodified option->CreateEvaluator (iff non-zero)->grammar.MaxExpressions->parser.maxExprCnt, zero mapped to MaxUint64 after options are applied; the step counter has one writer (+1 in parseExpr's entry block) and is read only by that increment and one ordered comparison with the budget whose exceeded edge panics with errMaxExprCnt and which dominates the whole dispatch; all engine methods are entered only through parseExpr. Hence a limited run is a prefix of the unlimited run: exact threshold N, monotone, at most n+1 steps; panic recovered into the error (C10 rules imported); every exported entry point of the grammar package forwards its options unchanged and returns the inner call's error unless a clean-up error tested non-nil replaces it; the error list renders every entry.",
+      "Non-interference proof from censuses: budget transported unmodified option->CreateEvaluator (iff non-zero)->grammar.MaxExpressions->parser.maxExprCnt, zero mapped to MaxUint64 after options are applied; the step counter has one writer (+1 in parseExpr's entry block) and is read only by that increment and one ordered comparison with the budget whose exceeded edge panics with errMaxExprCnt and which dominates the whole dispatch; all engine methods are entered only through parseExpr. Hence a limited run is a prefix of the unlimited run: exact threshold N, monotone, at most n+1 steps; panic recovered into the error (C10 rules imported); every entry point of the grammar package forwards its options unchanged at every call of a callee that takes options (the constructor included), no engine function writes to an option list it was given, and each returns the inner call's error unless a clean-up error tested non-nil replaces it; the error list renders every entry.",
       "§4 C11", "field read/write census + dominance + who-may-call census + symbolic transport check")
 
 claim("C18", "other",
